@@ -761,8 +761,12 @@ mutual
       let ae ← parseAutoescape attrs
       let priv ← boolAttr attrs kPrivate false
       let _ ← expect .tRightDelim
-      let st ← get
+      -- `&ast.TemplateNode{token.pos, t.namespace + id.val, t.itemList(itemTemplateEnd), …}`: the Go
+      -- spec leaves the order of the read of `t.namespace` and the call `t.itemList` open; the gc
+      -- compiler performs the call first, so a {namespace} tag inside the body (possible only while
+      -- the file has no namespace yet) already applies to this template's own name.
       let body ← itemListLoop fuel [.tTemplateEnd] none .nil
+      let st ← get
       let _ ← expect .tRightDelim
       pure (.template token.pos (st.ns ++ id.val) body ae priv)
 
